@@ -11,6 +11,15 @@ pub(crate) struct Thread {
     /// If the thread is runnable, blocked, or terminated.
     pub state: State,
 
+    /// The token of `thread::park` / `Thread::unpark`: set by an `unpark`
+    /// that finds the thread not parked, consumed by the next `park`. It is
+    /// independent of every other reason for which the thread may be blocked
+    /// or made runnable.
+    pub park_token: bool,
+
+    /// The thread is blocked in `thread::park`.
+    pub parked: bool,
+
     /// True if the thread is in a critical section
     pub critical: bool,
 
@@ -75,7 +84,7 @@ impl Id {
 
 #[derive(Debug, Clone, Copy)]
 pub(crate) enum State {
-    Runnable { unparked: bool },
+    Runnable,
     Blocked(#[allow(dead_code)] Location),
     Yield,
     Terminated,
@@ -93,7 +102,9 @@ impl Thread {
         Thread {
             id,
             span: tracing::info_span!(parent: parent_span.id(), "thread", id = id.id),
-            state: State::Runnable { unparked: false },
+            state: State::Runnable,
+            park_token: false,
+            parked: false,
             critical: false,
             operation: None,
             causality: VersionVec::new(),
@@ -106,11 +117,11 @@ impl Thread {
     }
 
     pub(crate) fn is_runnable(&self) -> bool {
-        matches!(self.state, State::Runnable { .. })
+        matches!(self.state, State::Runnable)
     }
 
     pub(crate) fn set_runnable(&mut self) {
-        self.state = State::Runnable { unparked: false };
+        self.state = State::Runnable;
     }
 
     pub(crate) fn set_blocked(&mut self, location: Location) {
@@ -150,18 +161,30 @@ impl Thread {
         Box::new(locals)
     }
 
+    /// `Thread::unpark`: wakes the thread if it is parked, otherwise leaves
+    /// the token for its next `park`. A thread that is blocked elsewhere (on a
+    /// lock, in a join, in a condvar wait, ...) is not made runnable.
     pub(crate) fn unpark(&mut self, unparker: &Thread) {
         self.causality.join(&unparker.causality);
         self.set_unparked();
     }
 
-    /// Unpark a thread's state. If it is already runnable, store the unpark for
-    /// a future call to `park`.
     fn set_unparked(&mut self) {
+        if self.parked {
+            self.parked = false;
+            self.set_runnable();
+        } else {
+            self.park_token = true;
+        }
+    }
+
+    /// Wake-up by the primitive the thread is waiting on (`Notify`,
+    /// `Condvar`). Does not touch the park token.
+    pub(crate) fn wake(&mut self, waker: &Thread) {
+        self.causality.join(&waker.causality);
+
         if self.is_blocked() || self.is_yield() {
             self.set_runnable();
-        } else if self.is_runnable() {
-            self.state = State::Runnable { unparked: true }
         }
     }
 }
@@ -300,6 +323,16 @@ impl Set {
     pub(crate) fn active_atomic_version(&self) -> u16 {
         let id = self.active_id();
         self.active().causality[id]
+    }
+
+    /// Wake a thread that waits on a primitive (see `Thread::wake`).
+    pub(crate) fn wake(&mut self, id: Id) {
+        if id == self.active_id() {
+            return;
+        }
+
+        let (active, th) = self.active2_mut(id);
+        th.wake(active);
     }
 
     pub(crate) fn unpark(&mut self, id: Id) {
